@@ -122,6 +122,11 @@ class PointPixelRegion(PixelRegion):
         from matplotlib.lines import Line2D
 
         mpl_kwargs = self.visual.define_mpl_kwargs(self._mpl_artist)
+        # the color of a point region is stored as its marker edge color;
+        # a color given by the caller overrides it
+        if ('color' in kwargs and 'markeredgecolor' not in kwargs
+                and 'mec' not in kwargs):
+            mpl_kwargs.pop('markeredgecolor', None)
         mpl_kwargs.update(kwargs)
 
         return Line2D([self.center.x - origin[0]],
